@@ -6,7 +6,7 @@ import Driver.Util
 /-!
   line protocol of the `exit` engine (property C08)
 
-  `pdshmodel exit model <d7><d8><d9><late>`   (four 0/1 characters: which repairs the model applies)
+  `pdshmodel exit model <d7><d8><d9><late><canc>`   (five 0/1 characters: which repairs the model applies)
       xrc HEX                                    -> "<ret> <hex>"
       dsh S K FANOUT CMDTMO SCRIPT[;SCRIPT...]   -> "ret <int> exit <n>" | "noret exit 1"
           SCRIPT = comma separated fields  c<0|1> o<hex> v<int> | w<e|s><n> | wnull  d<ms> t<0|1> | x1 (canceled)
@@ -21,7 +21,7 @@ open PdshVerif PdshVerif.Dsh PdshVerif.Dsh.Exit
 
 def parseFixes (s : String) : Option Fixes :=
   match s.toList with
-  | [a, b, c, d] => some ⟨a = '1', b = '1', c = '1', d = '1'⟩
+  | [a, b, c, d, e] => some ⟨a = '1', b = '1', c = '1', d = '1', e = '1'⟩
   | _ => none
 
 def parseWait (s : String) : Option (Option Nat) :=
@@ -102,8 +102,8 @@ def main (args : List String) : IO UInt32 := do
   | ["model", fxs] =>
     match parseFixes fxs with
     | some fx => Driver.forLines stdin () (fun _ l => ((), stepModel fx l)); return 0
-    | none => IO.eprintln "usage: pdshmodel exit model <4 bits>"; return 2
+    | none => IO.eprintln "usage: pdshmodel exit model <5 bits>"; return 2
   | ["spec"] => Driver.forLines stdin () (fun _ l => ((), stepSpec l)); return 0
-  | _ => IO.eprintln "usage: pdshmodel exit model <d7 d8 d9 late>|spec"; return 2
+  | _ => IO.eprintln "usage: pdshmodel exit model <d7 d8 d9 late canc>|spec"; return 2
 
 end Driver.ExitDrv
